@@ -21,7 +21,11 @@ func diffV6(rec *obs.Rec, b []byte) *obs.Fail {
 	cov := v6Cov()
 	var why refv6.Reason
 	want, verdict := refv6.DecodeMsg(b, cov.skip, &why)
-	got, err := dhcpv6.FromBytes(append([]byte{}, b...))
+	in := append([]byte{}, b...)
+	got, err := dhcpv6.FromBytes(in)
+	if !bytes.Equal(in, b) {
+		return obs.Failf("C05/decoder-wrote-to-its-input", "FromBytes leaves its input unchanged", "input changed at byte %d", firstDiff(in, b))
+	}
 	libV := "accept"
 	if err != nil {
 		libV = "reject"
@@ -69,6 +73,21 @@ func diffV6(rec *obs.Rec, b []byte) *obs.Fail {
 	refv6.Normalize(tree)
 	if p, w := refv6.Diff(want, tree, false); p != "" {
 		return obs.Failf("C05/value/"+sigPath(p), "the value an RFC decoder reads", "%s: reference vs library: %s", p, w)
+	}
+	// what a decode returns depends on the bytes alone: the first result is overwritten in place (every byte slice
+	// it holds: addresses, masks, payloads, cached wire forms), then the same bytes must read the same again
+	scribbleValue(got, 0xA5)
+	again, err := dhcpv6.FromBytes(append([]byte{}, b...))
+	if err != nil {
+		return obs.Failf("C05/verdict/second-decode", "the same bytes are accepted again", "error %v", err)
+	}
+	tree2, xerr := gen.FromLibMsg(again)
+	if xerr != nil {
+		return obs.Failf("C05/extract", "extractable value", "%v", xerr)
+	}
+	refv6.Normalize(tree2)
+	if p, w := refv6.Diff(want, tree2, false); p != "" {
+		return obs.Failf("C05/value/"+sigPath(p)+"/after-an-earlier-result-was-overwritten", "the value an RFC decoder reads", "%s: reference vs library: %s", p, w)
 	}
 	return nil
 }
